@@ -1,7 +1,11 @@
 //! Conformance drivers (pv-traverse). Sub-commands are added per property.
+mod slot;
+
 fn main() {
     let args = pv_core::Args::parse();
     match args.cmd.as_str() {
+        "slot-replay" => slot::replay(&args),
+        "slot-trace" => slot::trace(&args),
         other => pv_core::die(&format!("unknown sub-command {other}")),
     }
 }
